@@ -42,9 +42,19 @@ def data_of(o):
     return o.data["len"], (lambda i, d=o.data: Mx.data_byte(d, i))
 
 
+PAYLOAD_ENUM_BOUND = [0]  # when > 0: payloads are known to be shorter than this many bytes, compare them byte by byte at concrete positions
+
+
 def payload_eq(da, db, idx):
     la, fa = da
     lb, fb = db
+    n = PAYLOAD_ENUM_BOUND[0]
+    if n:
+        # concrete positions make every memory read a direct lookup (no symbolic address): far easier for the solver
+        c = [la == lb, z3.ULE(la, BV(n))]
+        for i in range(n):
+            c.append(z3.Implies(z3.ULT(BV(i), la), fa(BV(i)) == fb(BV(i))))
+        return z3.And(*c)
     return z3.And(la == lb, z3.Implies(z3.ULT(idx, la), fa(idx) == fb(idx)))
 
 
@@ -148,6 +158,51 @@ def same_outcome(a, b, idx, regions=None):
         c.append(state_equiv(a.world.storage, b.world.storage, regions["storage"], idx))
         c.append(state_equiv(a.world.transient, b.world.transient, regions["transient"], idx))
     return z3.And(*c)
+
+
+def payload_parts(name, da, db, idx, short):
+    """[(clause, formula)] : equality of two payloads, split into independently dischargeable parts"""
+    la, fa = da
+    lb, fb = db
+    parts = [(name + ":length", la == lb)]
+    if short:
+        parts.append((name + ":length-bounded", z3.ULE(la, BV(short))))
+        for w in range(0, short, 32):
+            parts.append((f"{name}:bytes[{w}:{w + 32}]", z3.And(*[z3.Implies(z3.ULT(BV(i), la), fa(BV(i)) == fb(BV(i))) for i in range(w, min(short, w + 32))])))
+    else:
+        parts.append((name + ":bytes", z3.Implies(z3.ULT(idx, la), fa(idx) == fb(idx))))
+    return parts
+
+
+def outcome_parts(a, b, idx, regions=None, short=0):
+    """same_outcome(a, b) as a list of (clause, formula) whose conjunction it is; None when the outcomes differ in shape
+    (status class, number or kind of events)"""
+    if success(a) != success(b):
+        return None
+    parts = payload_parts("data", data_of(a), data_of(b), idx, short)
+    if success(a):
+        ta, tb = visible(a.world.trace), visible(b.world.trace)
+        if len(ta) != len(tb) or any(x[0] != y[0] for x, y in zip(ta, tb)):
+            return None
+        for n, (ea, eb) in enumerate(zip(ta, tb)):
+            k = ea[0]
+            if k == "log":
+                if len(ea[1]) != len(eb[1]):
+                    return None
+                parts.append((f"event{n}:topics", z3.And(*[x == y for x, y in zip(ea[1], eb[1])]) if ea[1] else z3.BoolVal(True)))
+                parts += payload_parts(f"event{n}:data", (ea[2]["len"], lambda i, d=ea[2]: Mx.data_byte(d, i)), (eb[2]["len"], lambda i, d=eb[2]: Mx.data_byte(d, i)), idx, short)
+            elif k in ("call", "staticcall", "delegatecall", "callcode"):
+                c = [ea[2] == eb[2], ea[3] == eb[3]]
+                if isinstance(eb[1], tuple) and eb[1][0] == "requested-gas":
+                    c.append(ea[1] == eb[1][1])
+                parts.append((f"event{n}:target-value-gas", z3.And(*c)))
+                parts += payload_parts(f"event{n}:calldata", (ea[4]["len"], lambda i, d=ea[4]: Mx.data_byte(d, i)), (eb[4]["len"], lambda i, d=eb[4]: Mx.data_byte(d, i)), idx, short)
+            else:
+                parts.append((f"event{n}", event_eq(ea, eb, idx)))
+        regions = regions or {"storage": [], "transient": []}
+        parts.append(("final-storage", state_equiv(a.world.storage, b.world.storage, regions["storage"], idx)))
+        parts.append(("final-transient-storage", state_equiv(a.world.transient, b.world.transient, regions["transient"], idx)))
+    return parts
 
 
 def describe(o):
